@@ -23,9 +23,9 @@ package spg
 //@   ensures [C01] accepted: acc(n, word(tape, pos-4))
 //@   ensures [C01] residue:  res == pick(n, word(tape, pos-4))
 //@   ensures [C01] first:    acc(n, word(tape, old(pos))) ==> pos == old(pos)+4
-//@   ensures [C01,C02,C04,C09] draw:  Draw(tape, old(pos), pos, n, res)
-//@   ensures [C01,C02,C03,C04,C13] range: 0 <= res && res < n
-//@   ensures [C02,C04] ghost.named: res == oracle(old(ctr), n) && ctr == old(ctr)+1
+//@   ensures [C01,C02,C04,C09,C06] draw:  Draw(tape, old(pos), pos, n, res)
+//@   ensures [C01,C02,C03,C04,C13,C06] range: 0 <= res && res < n
+//@   ensures [C02,C04,C06] ghost.named: res == oracle(old(ctr), n) && ctr == old(ctr)+1
 
 // ---------------------------------------------------------------- token.go
 
@@ -292,15 +292,15 @@ package spg
 //@   ensures [C17] silent: err == nil ==> outn == old(outn) && outl == old(outl)
 //@   ensures [C05] first:   err == nil ==> P[0] == 0
 //@   ensures [C05] total:   err == nil ==> len(res.tokens) == P[r.Length]
-//@   ensures [C04,C05,C10] atoms: err == nil ==> forall(int(a), trig(P[a]), 0 <= a && a < r.Length ==> P[a] >= 0 && P[a] < len(res.tokens) &&
+//@   ensures [C04,C05,C10,C06] atoms: err == nil ==> forall(int(a), trig(P[a]), 0 <= a && a < r.Length ==> P[a] >= 0 && P[a] < len(res.tokens) &&
 //@        res.tokens[P[a]].tType == AtomType && res.tokens[P[a]].value == atom(a))
 //@   ensures [C05] gaps:    err == nil ==> forall(int(a), int(b), trig(P[a], P[b]), 0 <= a && a < r.Length-1 && b == a+1 ==>
 //@        (sepOf(a) == "" && P[b] == P[a]+1) ||
 //@        (sepOf(a) != "" && P[b] == P[a]+2 && res.tokens[P[a]+1].tType == SeparatorType && res.tokens[P[a]+1].value == sepOf(a)))
 //@   ensures [C05] last:    err == nil ==> P[r.Length] == P[r.Length-1] + 1
-//@   ensures [C04] draws:   err == nil ==> forall(int(a), trig(CW[a]), 0 <= a && a <= r.Length ==> old(ctr) + ncap() <= CW[a] && CW[a] <= ctr) &&
+//@   ensures [C04,C06] draws:   err == nil ==> forall(int(a), trig(CW[a]), 0 <= a && a <= r.Length ==> old(ctr) + ncap() <= CW[a] && CW[a] <= ctr) &&
 //@        forall(int(a), int(b), trig(CW[a], CW[b]), 0 <= a && a < b && b <= r.Length ==> CW[a] < CW[b])
-//@   ensures [C04] seps:    err == nil && r.SeparatorFunc != nil ==> forall(int(a), trig(K[a]), 0 <= a && a < r.Length-1 ==> K[a] == old(sfcalls) + a)
+//@   ensures [C04,C06] seps:    err == nil && r.SeparatorFunc != nil ==> forall(int(a), trig(K[a]), 0 <= a && a < r.Length-1 ==> K[a] == old(sfcalls) + a)
 //@   loop 1 invariant [C04] rnd:    0 <= i && i <= r.Length && ctr == old(ctr) + i && sfcalls == old(sfcalls)
 //@   loop 1 invariant [C04] rndmap: forall(int(a), 0 <= a && a < i ==> lookup(capWords, a) == (oracle(old(ctr)+a, 2) == 1)) &&
 //@        forall(int(a), a < 0 || a >= i ==> !dom(capWords, a))
@@ -545,12 +545,12 @@ package spg
 //@   ensures [C03,C02] required: err == nil ==> ok(catTok(arr(res.tokens), off(res.tokens), len(res.tokens)))
 //@   ensures [C06] entropy:      err == nil ==> (noReq(pub(r), RS(), off(r.RequireSets), len(r.RequireSets)) ==> res.Entropy == real(r.Length) * log2(real(asize()))) &&
 //@        (!noReq(pub(r), RS(), off(r.RequireSets), len(r.RequireSets)) ==> res.Entropy == entropyReq(pub(r), RS(), off(r.RequireSets), len(r.RequireSets)))
-//@   ensures [C02] form:         err == nil ==> 0 <= N[0] && N[0] < MaxTrials && M[0] == asize() && ctr == C[N[0]] + r.Length &&
+//@   ensures [C02,C06] form:         err == nil ==> 0 <= N[0] && N[0] < MaxTrials && M[0] == asize() && ctr == C[N[0]] + r.Length &&
 //@        forall(int(j), trig(res.tokens[j]), 0 <= j && j < r.Length ==> res.tokens[j].value == E[idx(0, oracle(C[N[0]] + j, M[0]))])
-//@   ensures [C02] alphabet:     err == nil ==> forall(int(k), int(k2), trig(E[idx(0, k)], E[idx(0, k2)]), 0 <= k && k < k2 && k2 < M[0] ==> E[idx(0, k)] != E[idx(0, k2)]) &&
+//@   ensures [C02,C06] alphabet:     err == nil ==> forall(int(k), int(k2), trig(E[idx(0, k)], E[idx(0, k2)]), 0 <= k && k < k2 && k2 < M[0] ==> E[idx(0, k)] != E[idx(0, k2)]) &&
 //@        forall(str(c), (exists(int(k), 0 <= k && k < M[0] && E[idx(0, k)] == c)) == inAlpha(c))
-//@   ensures [C02] rejected:     err == nil ==> forall(int(b), trig(S[b]), 0 <= b && b < N[0] ==> !ok(S[b]) && S[b] == catTok(V[b], 0, r.Length))
-//@   ensures [C02] rejected-form: err == nil ==> forall(int(b), int(j), trig(V[b][idx(0, j)]), 0 <= b && b < N[0] && 0 <= j && j < r.Length ==>
+//@   ensures [C02,C06] rejected:     err == nil ==> forall(int(b), trig(S[b]), 0 <= b && b < N[0] ==> !ok(S[b]) && S[b] == catTok(V[b], 0, r.Length))
+//@   ensures [C02,C06] rejected-form: err == nil ==> forall(int(b), int(j), trig(V[b][idx(0, j)]), 0 <= b && b < N[0] && 0 <= j && j < r.Length ==>
 //@        V[b][idx(0, j)].value == E[idx(0, oracle(C[b] + j, M[0]))])
 //@   ensures [C13,C15] fresh:    err == nil ==> fresh(res)
 //@   ensures [C17] silent:       err == nil ==> outn == old(outn) && outl == old(outl)
